@@ -1,4 +1,5 @@
 import FlatModel.Props.C16
+import FlatModel.Props.UniverseSer
 #print axioms FC.C16.de_ser
 #print axioms FC.C16.continuation
 #print axioms FC.C16.continuation_sim
@@ -10,3 +11,9 @@ import FlatModel.Props.C16
 #print axioms FC.C16.list_state_preserved
 #print axioms FC.C16.columns_preserved
 #print axioms FC.C16.stack_preserved
+#print axioms FC.Universe.C16_every_composition
+#print axioms FC.Universe.C16_reachable
+#print axioms FC.Universe.C16_reach
+#print axioms FC.Universe.C16_twice
+#print axioms FC.Universe.C16_every_shape
+#print axioms FC.Universe.C16_every_index_container
